@@ -246,6 +246,257 @@ def run_batch(R, triples, label, fresh, oracle_only=False):
         judge(R, s, name, text, None if model is None else model[lo: lo + k], label)
 
 
+# ------------------------------------------------------------------ histories: text, then commands that depend on state
+#
+# The statement compares "the same calls" with the caller's text and with an innocuous one.  A text can also change
+# what is executed *later*: anything that reads words back out of a written statement (to follow the distance mode,
+# the tool, the units ...) and is not as careful about comments as a machine is, lets a text that merely mentions
+# `G91` or `M3` alter the tracked state, and the commands whose output depends on that state (move_absolute /
+# rapid_absolute / absolute_mode() / relative_mode(), the interlocked tool / coolant / halt commands) then emit other
+# lines.  So: whole call histories on ONE fresh builder, in which the texts are made of G-code / M-code words (modal
+# ones above all), followed by state-dependent commands; the same history is run again with every text replaced by
+# the empty string and by an innocuous text of the same shape (`twin_text`), and every call - not only the ones that
+# carry a text - must write the same executable words and the same number of line breaks, and raise the same way.
+# The Lean model (Format.lean) has no notion of a builder's carried state: these run through the implementation and
+# the oracle only, counted under `history*`.
+
+CODE_WORDS = (["G90", "G91"] * 4 + ["G90.1", "G91.1", "G92 X0", "G92 X0 Y0 Z0", "G92.1", "G20", "G21", "G17", "G18", "G19",
+                                    "G93", "G94", "M82", "M83", "M3", "M03 S1000", "M4", "M5", "M05", "M6", "T1 M6", "T01 M06",
+                                    "M7", "M8", "M9", "M09", "M0", "M00", "M1", "M2", "M30", "M60", "M112", "G28", "G28 X0",
+                                    "G0 X0 Y0", "G1 X9 F100", "G4 P1", "G53", "G54", "S1000", "F100", "M104 S200",
+                                    "M109 S200", "M140 S60", "M190 S60", "M106 S255", "M107", "G38.2 Z-5"])
+PHRASES = ["{a}", "{a}", "{a} {b}", "do not switch to {a} in this section", "{a} is restored later", "was {a}, now {b}",
+           "see {a}.", "{a}: {b}", "N10 {a}", "{a}*71", "{a}{b}", "step 3 - {a} - then {b}", "{a} ; {b}", "; {a}", "%{a}",
+           "{a}\t{b}", "=={a}=="]
+COORDS = [0, 1, 2, 5, 10, -3, 2.5, 7.25, -0.5, 20]
+
+
+def code_text(rng, opening, closing):
+    """a caller text made of G-code / M-code words; sometimes behind a delimiter or a line break"""
+    def word():
+        w = rng.choice(CODE_WORDS)
+        r = rng.random()
+        if r < 0.12:
+            w = w.lower()
+        elif r < 0.18:
+            w = w.replace(" ", "")
+        return w
+    t = rng.choice(PHRASES).format(a=word(), b=word())
+    r = rng.random()
+    if r < 0.08 and closing:
+        t = f"x {closing} {t} {opening}"
+    elif r < 0.14:
+        t = "x" + rng.choice(["\n", "\r\n", "\r"]) + t
+    elif r < 0.18:
+        t = f"{opening} {t} {closing}".strip()
+    elif r < 0.24:
+        t = t + rng.choice([" ", "\n", " é", " ✓"])
+    return t
+
+
+def twin_text(text):
+    """an innocuous text of the same shape: same length, same blanks, every other character a plain letter"""
+    return "".join(c if c == " " else "w" for c in text)
+
+
+TEXT_ENTRIES_IN_HISTORY = ["comment", "comment", "comment-args", "annotate", "annotate", "move", "rapid", "move_absolute",
+                           "rapid_absolute", "move-nothing", "set_axis", "auto_home", "probe", "polyline",
+                           "emergency_halt", "emergency_halt-reset", "halt", "halt-params"]
+
+
+def _point(rng, always=False):
+    p = {}
+    for ax in "xyz":
+        if rng.random() < (0.55 if ax != "z" else 0.2):
+            p[ax] = rng.choice(COORDS)
+    if not p and (always or rng.random() < 0.8):
+        p["x"] = rng.choice(COORDS)
+    return p
+
+
+def gen_text_op(rng, opening, closing):
+    return ["text", rng.choice(TEXT_ENTRIES_IN_HISTORY), code_text(rng, opening, closing)]
+
+
+def gen_dependent_op(rng, opening, closing, depth=0):
+    """a command whose output (or refusal) depends on state carried by the builder"""
+    r = rng.random()
+    if r < 0.17:
+        return ["move_absolute", _point(rng)]
+    if r < 0.27:
+        return ["rapid_absolute", _point(rng)]
+    if r < 0.39:
+        return [rng.choice(["move", "rapid"]), _point(rng)]
+    if r < 0.52 and depth == 0:
+        body = []
+        for _ in range(rng.choice([1, 1, 2, 3])):
+            body.append(gen_text_op(rng, opening, closing) if rng.random() < 0.3
+                        else gen_dependent_op(rng, opening, closing, depth + 1))
+        return [rng.choice(["abs_ctx", "rel_ctx"]), body]
+    if r < 0.60:
+        return ["mode", rng.choice(["absolute", "relative"])]
+    if r < 0.64:
+        return ["polyline", [[rng.choice(COORDS), rng.choice(COORDS), 0] for _ in range(rng.choice([1, 2, 3]))]]
+    if r < 0.92:
+        return ["call"] + rng.choice([
+            ["tool_on", [rng.choice(["clockwise", "counter"]), rng.choice([1000, 0, 12000.5])]], ["tool_off", []],
+            ["coolant_on", [rng.choice(["flood", "mist"])]], ["coolant_off", []],
+            ["tool_change", [rng.choice(["manual", "automatic"]), rng.choice([1, 2, 12])]],
+            ["power_on", [rng.choice(["constant", "dynamic"]), rng.choice([50, 100])]], ["power_off", []],
+            ["set_extrusion_mode", [rng.choice(["absolute", "relative"])]], ["set_plane", [rng.choice(["xy", "zx", "yz"])]],
+            ["set_length_units", [rng.choice(["millimeters", "inches"])]], ["set_feed_rate", [rng.choice([100, 1200.5])]],
+            ["set_feed_mode", [rng.choice(["1/time", "units/min"])]], ["set_tool_power", [rng.choice([0, 80])]],
+            ["halt", [rng.choice(["pause", "optional-pause", "end-with-reset"])]], ["sleep", [rng.choice([1, 0.5])]],
+            ["set_axis", [{"x": 0}]], ["auto_home", [{}]]])
+    if r < 0.97:
+        return ["transform"] + rng.choice([["translate", [rng.choice(COORDS), rng.choice(COORDS), 0]],
+                                           ["scale", [rng.choice([2, 0.5])]], ["rotate", [rng.choice([90, 180, 30])]],
+                                           ["mirror", ["zx"]]])
+    if depth:
+        # (a call's bytes are read under ONE style: the style is only switched between top-level calls)
+        return ["move_absolute", _point(rng, True)]
+    return ["style", rng.choice([s for s in F.ALL_SYMBOLS if F.style_of(s)[0] != opening])]
+
+
+def gen_history(rng, sym):
+    opening, closing = F.style_of(sym)
+    ops = []
+    if rng.random() < 0.65:
+        ops.append(["mode", rng.choice(["absolute", "relative"])])
+    for _ in range(rng.choice([0, 0, 1, 2])):
+        ops.append([rng.choice(["move", "rapid", "move_absolute"]), _point(rng, True)])
+    for _ in range(rng.choice([1, 1, 2, 2, 3, 4])):
+        ops.append(gen_text_op(rng, opening, closing))
+        for _ in range(rng.choice([1, 2, 2, 3])):
+            op = gen_dependent_op(rng, opening, closing)
+            ops.append(op)
+            if op[0] == "style":
+                opening, closing = F.style_of(op[1])
+    return ops
+
+
+def map_texts(ops, f):
+    return [["text", op[1], f(op[2])] if op[0] == "text" else
+            [op[0], map_texts(op[1], f)] if op[0] in ("abs_ctx", "rel_ctx") else op for op in ops]
+
+
+def texts_of(ops):
+    out = []
+    for op in ops:
+        if op[0] == "text":
+            out.append(op[2])
+        elif op[0] in ("abs_ctx", "rel_ctx"):
+            out += texts_of(op[1])
+    return out
+
+
+def _exec_op(g, eps, op):
+    k = op[0]
+    if k == "text":
+        eps[op[1]][0](g, op[2])
+    elif k == "mode":
+        g.set_distance_mode(op[1])
+    elif k in ("move", "rapid", "move_absolute", "rapid_absolute"):
+        getattr(g, k)(**op[1])
+    elif k in ("abs_ctx", "rel_ctx"):
+        with (g.absolute_mode() if k == "abs_ctx" else g.relative_mode()):
+            for sub in op[1]:
+                _exec_op(g, eps, sub)
+    elif k == "polyline":
+        g.trace.polyline([tuple(p) for p in op[1]])
+    elif k == "call":
+        args = op[2]
+        if args and isinstance(args[0], dict):
+            getattr(g, op[1])(**args[0])
+        else:
+            getattr(g, op[1])(*args)
+    elif k == "transform":
+        getattr(g.transform, op[1])(*op[2])
+    elif k == "style":
+        g.format.set_comment_symbols(op[1])
+    else:
+        raise core.Infra(f"unknown history op {op!r}")
+
+
+def run_history(sym, le, ops):
+    """one fresh builder, the calls of `ops` in order; per top-level call: (exception class, bytes, executable words,
+    line-break count) - comments removed under the style in force when the call was made"""
+    g, rec = F.make_builder(5, sym, le)
+    eps = entry_points()
+    opening, closing = F.style_of(sym)
+    out = []
+    for op in ops:
+        rec.raw.clear()
+        exc = None
+        try:
+            _exec_op(g, eps, op)
+        except core.Infra:
+            raise
+        except Exception as e:  # noqa: BLE001
+            exc = type(e).__name__
+        raw = b"".join(rec.raw).decode("utf-8", "replace")
+        if op[0] == "style" and exc is None:
+            opening, closing = F.style_of(op[1])
+        out.append((exc, raw, F.strip_comments(raw, opening, closing), F.break_count(raw)))
+    return out
+
+
+def history_verdict(sym, le, ops):
+    """None, or (tag, message): the first call of the history that differs from the twin runs"""
+    mine = run_history(sym, le, ops)
+    for bname, f in (("empty", lambda t: ""), (INNOCUOUS, twin_text)):
+        twin = run_history(sym, le, map_texts(ops, f))
+        for i, (op, (exc, raw, ex, nb), (bexc, braw, bex, bnb)) in enumerate(zip(ops, mine, twin)):
+            own = op[0] == "text"
+            where = (f"call #{i} {op!r}" + ("" if own else f" after the texts {texts_of(ops[:i + 1])!r}")
+                     + f", compared with the same history with {bname} texts")
+            if exc != bexc:
+                return "raises", f"{where}: {'raised ' + exc if exc else 'did not raise'} instead of " \
+                                 f"{'raising ' + bexc if bexc else 'succeeding'}"
+            if ex != bex:
+                return ("escape" if own else "carried"), \
+                    f"{where}: executable words {ex!r} instead of {bex!r} (bytes {raw!r} instead of {braw!r})"
+            if nb != bnb:
+                return "lines", f"{where}: {nb} line-break characters instead of {bnb} (bytes {raw!r})"
+    return None
+
+
+def judge_history(R, sym, le, ops, label, shrink=True):
+    case = {"symbols": sym, "line_endings": le, "history": ops}
+    texts = texts_of(ops)
+    R.case(case, nontrivial=any(texts), validated=False)
+    R.count(label, "history:style:" + F.style_of(sym)[0], "history:texts:" + str(len(texts)),
+            *("history-op:" + (op[0] if op[0] != "call" else op[1]) for op in ops))
+    v = history_verdict(sym, le, ops)
+    R.count("history-outcome:" + (v[0] if v else "same-as-twins"))
+    if v is None:
+        return
+    if shrink and len(R.failures) < 3:
+        ops = core.shrink_list(ops, lambda c: bool(c) and history_verdict(sym, le, c) is not None, max_rounds=80)
+        v = history_verdict(sym, le, ops) or v
+        case = {"symbols": sym, "line_endings": le, "history": ops}
+    R.fail(case, v[1], tag="history-" + v[0])
+
+
+# hand-written members of the family (run under every comment style)
+HISTORY_CORPUS = [
+    [["mode", "absolute"], ["move", {"x": 5, "y": 5}], ["text", "comment", "keep G91 out of this section"],
+     ["move_absolute", {"x": 10, "y": 0}], ["move", {"x": 20, "y": 20}]],
+    [["mode", "relative"], ["text", "move", "back to G90 after the pocket"], ["rapid_absolute", {"x": 0, "y": 0}],
+     ["move", {"x": 5}], ["abs_ctx", [["move", {"x": 1}]]]],
+    [["text", "annotate", "M3 S1000 / T1 M6 / M8"], ["call", "tool_on", ["clockwise", 1000]], ["call", "coolant_on", ["flood"]],
+     ["rel_ctx", [["text", "comment", "G90 M5 M9 M30"], ["move", {"x": 2}]]], ["call", "tool_change", ["manual", 2]],
+     ["text", "emergency_halt", "G91 G28 Z0 then M112"], ["move_absolute", {"x": 0}]],
+]
+
+
+def run_histories(R, n, label):
+    rng = R.rng
+    for _ in range(n):
+        sym = rng.choice(F.ALL_SYMBOLS + ["( ", " ; "])
+        judge_history(R, sym, rng.choice(EOLS), gen_history(rng, sym), label)
+
+
 CORPUS = ["x\nM3 S1000", "a\rG1 X9", "a\r\nG1 X9", "a) G1 X5 (b", "a ] G1 X5 [", "b } G1 X5 {", "c > G1 X5 <",
           'd " G1 X5 "', "e ' G1 X5 '", "f */ G1 X5 /*", "**//", "*/*/", "* /", "trail  \r", "\n", "\r\n\r\n", "",
           "   ", "{} {0} %s", "x\x85G1 X9", "x G1 X9", "x\x0bG1 X9", "x\x0cG1 X9", "tab\there", "é✓", "; G1 X9", "( G1 X9 )",
@@ -282,6 +533,11 @@ def run(R: core.Run):
     corpus = [(sym, rng.choice(EOLS), name, t) for sym in F.ALL_SYMBOLS for name in names for t in
               rng.sample(CORPUS, 3 if not R.thorough else len(CORPUS))]
     run_batch(R, corpus, "corpus", fresh=False)
+    # histories (implementation + oracle only): texts made of G-code words, then state-dependent commands
+    for k, ops in enumerate(HISTORY_CORPUS):
+        for sym in F.ALL_SYMBOLS:
+            judge_history(R, sym, EOLS[k % len(EOLS)], ops, "history:corpus")
+    run_histories(R, R.n(260, 20000), "history:random")
     triples = []
     for _ in range(R.n(6000, 200000)):
         sym = rng.choice(F.ALL_SYMBOLS + [" ; ", "( "])
@@ -322,6 +578,7 @@ def run(R: core.Run):
             sym = rng.choice(F.ALL_SYMBOLS)
             more.append((sym, rng.choice(EOLS), rng.choice(names), gen_text(rng, F.style_of(sym)[1], F.style_of(sym)[0])))
         run_batch(R, more, "search", fresh=False, oracle_only=True)
+        run_histories(R, R.n(500, 10000), "history:search")
     return {}, {}
 
 
@@ -329,6 +586,15 @@ def replay(data):
     core.use_repo()
     fl = data.get("failure") or data.get("first", {})
     case = fl.get("case")
+    if isinstance(case, dict) and "history" in case:
+        R = core.Run(PROP, "quick", 0)
+        R.scratch = True
+        judge_history(R, case["symbols"], case["line_endings"], case["history"], "replay", shrink=False)
+        print("case  :", case)
+        for label, ops in (("impl  :", case["history"]), ("twin  :", map_texts(case["history"], twin_text))):
+            print(label, [exc or raw for exc, raw, _, _ in run_history(case["symbols"], case["line_endings"], ops)])
+        print("oracle:", [f["message"] for f in R.failures] or "ok")
+        return 1 if R.failures else 0
     if not isinstance(case, dict) or "entry" not in case:
         print("replay: no case recorded (", data.get("no_longer_checks"), ")")
         return 1
